@@ -62,8 +62,139 @@ CONDITIONS = ["always", "newer", "older", "exists", "not_exists"]
 RELATIONS = ["empty", "disjoint", "overlapping", "conflicting"]
 
 
+# --------------------------------------------------------------------------- modification times
+# A file's time field k is a number (mtime = BASE + k; integer or fractional) or ["@", t] (the absolute epoch
+# value t: 0, negative, far future).  MemoryFS stores the float it is given; an OS directory stores nanoseconds.
+
+TIME_DELTAS = [0.25, 0.001, 0.000001]
+TIME_ANCHORS = [("recent", BASE + 15), ("epoch", 0), ("epoch-crossing", -1), ("negative", -1000000),
+                ("beyond-2^32", 4300000000), ("year-3000", 32503680000)]
+FUTURE = 1500000000          # source times beyond this are 'in the future' for a freshly written destination file
+
+
+def mt(k):
+    return k[1] if isinstance(k, (list, tuple)) else BASE + k
+
+
+_os_scratch = []
+_os_cache = {}
+
+
+def os_time(x):
+    """Reference for 'the OS resolution': the st_mtime a file of the temp directory's filesystem reports after
+    os.utime(path, (x, x)) (what OSFS.setinfo is documented to do); None when the OS refuses the value."""
+    if x not in _os_cache:
+        if not _os_scratch:
+            import atexit
+            fd, path = tempfile.mkstemp(prefix="pyfs2verif_c19_t")
+            os.close(fd)
+            _os_scratch.append(path)
+            atexit.register(lambda: os.path.exists(path) and os.remove(path))
+        try:
+            os.utime(_os_scratch[0], (float(x), float(x)))
+            _os_cache[x] = os.stat(_os_scratch[0]).st_mtime
+        except (OSError, OverflowError, ValueError):
+            _os_cache[x] = None
+    return _os_cache[x]
+
+
+def os_fix(x):
+    """The value an OS directory can hold for x: a fixed point of os_time within 1 microsecond of x, or None
+    (value refused or clamped by the filesystem, or the float <-> nanosecond conversion does not settle)."""
+    y = os_time(x)
+    for _ in range(4):
+        if y is None or abs(y - x) > 1e-6 * max(1.0, abs(x) / 1e9):
+            return None
+        z = os_time(y)
+        if z == y:
+            return y
+        y = z
+    return None
+
+
+def backend_os(kind):
+    """(source is an OS directory, destination is an OS directory)."""
+    if kind.startswith("same-"):
+        return (kind == "same-os",) * 2
+    a, b = kind.split("-")
+    return a == "os", b == "os"
+
+
+def time_pairs():
+    """Systematic (anchor, delta, relation, source time, destination time) table: differences of 0.25 s / 1 ms /
+    1 us inside one second and across a second boundary, equal times, a whole second apart, around every anchor."""
+    out = []
+    for aname, a in TIME_ANCHORS:
+        for d in TIME_DELTAS:
+            out.append((aname, d, "within-second newer", a + 0.5 + d, a + 0.5))
+            out.append((aname, d, "within-second older", a + 0.5, a + 0.5 + d))
+            out.append((aname, d, "across-boundary newer", a + 1, a + 1 - d))
+            out.append((aname, d, "across-boundary older", a + 1 - d, a + 1))
+            out.append((aname, d, "equal fractional", a + 0.5 + d, a + 0.5 + d))
+        out.append((aname, 1, "one second newer", a + 1.25, a + 0.25))
+        out.append((aname, 1, "one second older", a + 0.25, a + 1.25))
+        out.append((aname, 0, "equal whole", a, a))
+    return out
+
+
+TIME_FILES = ["/t0.txt", "/t1.txt", "/sub/t2.txt", "/sub/t3.txt", "/sub/deep/t4.txt"]
+
+
+def time_trees(canon):
+    """[(src spec, dst spec, [table rows])]: five overlapping same-size files per tree carry one table row each.
+    canon: the values are mapped to what an OS directory can hold (rows it cannot hold are dropped)."""
+    rows = []
+    skipped = 0
+    for row in time_pairs():
+        st, dt = row[3], row[4]
+        if canon:
+            st, dt = os_fix(st), os_fix(dt)
+            if st is None or dt is None:
+                skipped += 1
+                continue
+        rows.append(row[:3] + (st, dt))
+    trees = []
+    for i in range(0, len(rows), len(TIME_FILES)):
+        chunk = rows[i:i + len(TIME_FILES)]
+        src = {"/sub": ["d"], "/sub/deep": ["d"], "/only_src.txt": ["f", ["@", chunk[0][3]], 0]}
+        dst = {"/sub": ["d"], "/sub/deep": ["d"], "/extra.txt": ["f", 3, 0], "/keep": ["d"]}
+        for path, row in zip(TIME_FILES, chunk):
+            src[path] = ["f", ["@", row[3]], 0]
+            dst[path] = ["f", ["@", row[4]], 0]
+        trees.append((src, dst, chunk))
+    return trees, skipped
+
+
+def retime(rnd, src, dst):
+    """Time-resolution variant of a generated pair: every file keeps its whole second, overlapping files keep
+    their relation (older / equal / newer) but differ by 0.25 s / 1 ms / 1 us, inside one second or across a
+    second boundary; all other files get a fractional part."""
+    fr = [0, 0.25, 0.5, 0.75, 0.001, 0.999999]
+    s2, d2 = {}, {}
+    for p, nd in src.items():
+        s2[p] = list(nd)
+    for p, nd in dst.items():
+        d2[p] = list(nd)
+    for p in sorted(set(s2) | set(d2)):
+        a, b = s2.get(p), d2.get(p)
+        if a is not None and b is not None and a[0] == "f" and b[0] == "f":
+            n, d = a[1], rnd.choice(TIME_DELTAS)
+            lo, hi = rnd.choice([(n + 0.5, n + 0.5 + d), (n + 1 - d, n + 1)])
+            if b[1] == a[1]:
+                a[1] = b[1] = hi
+            elif b[1] < a[1]:
+                a[1], b[1] = hi, lo
+            else:
+                a[1], b[1] = lo, hi
+        else:
+            for nd in (a, b):
+                if nd is not None and nd[0] == "f":
+                    nd[1] = nd[1] + rnd.choice(fr)
+    return s2, d2
+
+
 # --------------------------------------------------------------------------- tree specifications
-# spec: dict path -> ["d"] | ["f", k, pad]   (mtime = BASE + k; content = prefix + path + "." * pad)
+# spec: dict path -> ["d"] | ["f", k, pad]   (mtime = mt(k); content = prefix + path + "." * pad)
 
 def parents(p):
     out = []
@@ -156,11 +287,12 @@ def build(fs, spec, side):
     for p in sorted(spec):
         nd = spec[p]
         if nd[0] == "f":
-            fs.setinfo(p, {"details": {"modified": BASE + nd[1]}})
+            fs.setinfo(p, {"details": {"modified": mt(nd[1])}})
 
 
-def spec_state(spec, side):
-    return dict((p, ("d",) if nd[0] == "d" else ("f", content(side, p, nd[2]), BASE + nd[1]))
+def spec_state(spec, side, osb=False):
+    """Expected snapshot of a freshly built tree; osb: the tree lives in an OS directory (nanosecond times)."""
+    return dict((p, ("d",) if nd[0] == "d" else ("f", content(side, p, nd[2]), os_time(mt(nd[1])) if osb else mt(nd[1])))
                 for p, nd in spec.items())
 
 
@@ -401,13 +533,15 @@ def run_case(case):
         build(pair.dst, dst_spec, "D")
         src_before = snap(pair.src)
         before = snap(pair.dst)
+        src_os, dst_os = backend_os(case["backend"])
+        src_state = spec_state(src_spec, "S", src_os)
         if same:
-            union = spec_state(src_spec, "S")
-            union.update(spec_state(dst_spec, "D"))
+            union = dict(src_state)
+            union.update(spec_state(dst_spec, "D", dst_os))
             if before != union:
                 bad("harness-build-mismatch")
                 return fails
-        elif src_before != spec_state(src_spec, "S") or before != spec_state(dst_spec, "D"):
+        elif src_before != src_state or before != spec_state(dst_spec, "D", dst_os):
             bad("harness-build-mismatch")
             return fails
         outside_before = pair.outside()
@@ -470,17 +604,19 @@ def run_case(case):
                     return fails
                 # copies: the outcome is still judged against the selection derived from the source specification
         if fn == "mirror":
-            check_mirror(case, pair, src_spec, before, after, raised, fails)
+            check_mirror(case, pair, src_spec, before, after, raised, fails, src_state, dst_os)
             if "_second_pass_calls" in case:
                 orig_case["_second_pass_calls"] = case["_second_pass_calls"]
         else:
-            check_copy(case, src_spec, before, after, raised, calls, result, fails)
+            check_copy(case, src_spec, before, after, raised, calls, result, fails, src_state, dst_os)
     finally:
         pair.close()
     return fails
 
 
-def check_copy(case, src_spec, before, after, raised, calls, result, fails):
+def check_copy(case, src_spec, before, after, raised, calls, result, fails, src_state, dst_os):
+    """src_state: the source snapshot (RAW reported details.modified values: the conditions are judged on these and
+    on the raw values of the destination snapshot `before`); dst_os: the destination keeps OS-resolution times."""
     def bad(kind, **kw):
         fails.append(dict(kind=kind, **kw))
     fn = case["fn"]
@@ -514,7 +650,7 @@ def check_copy(case, src_spec, before, after, raised, calls, result, fails):
     expect = {}
     for t, p in tfile.items():
         nd = src_spec[p]
-        expect[t] = cond_holds(cond, BASE + nd[1], before.get(t))
+        expect[t] = cond_holds(cond, src_state[p][2], before.get(t))
     if raised is not None and not conflicts:
         bad("exception", exc=raised, note="no file/directory conflict in this case")
         return
@@ -531,15 +667,17 @@ def check_copy(case, src_spec, before, after, raised, calls, result, fails):
             if not is_copied and got != before.get(t):
                 bad("unrelated-changed", path=t, before=before.get(t), after=got)
             continue
+        sm = src_state[p][2]
+        want_m = os_time(sm) if dst_os else sm
         if expect[t]:
             if not is_copied:
-                bad("file-not-copied", path=t, cond=cond, before=before.get(t), after=got)
-            elif pt and got[2] != BASE + nd[1]:
-                bad("mtime-not-preserved", path=t, got=got[2], want=BASE + nd[1])
+                bad("file-not-copied", path=t, cond=cond, before=before.get(t), after=got, src_mtime=sm)
+            elif pt and got[2] != want_m:
+                bad("mtime-not-preserved", path=t, got=got[2], want=want_m)
         else:
             if is_copied:
                 bad("file-copied-against-condition", path=t, cond=cond, before=before.get(t),
-                    src_mtime=BASE + nd[1])
+                    src_mtime=sm)
             elif got != before.get(t):
                 bad("unrelated-changed", path=t, before=before.get(t), after=got)
     for q in before:
@@ -558,7 +696,8 @@ def check_copy(case, src_spec, before, after, raised, calls, result, fails):
             if result is not (dst_file in copied):
                 bad("return-value", returned=result, copied=dst_file in copied)
             if result is not expect[dst_file]:
-                bad("return-value-vs-condition", returned=result, expected=expect[dst_file])
+                bad("return-value-vs-condition", returned=result, expected=expect[dst_file], before=before.get(dst_file),
+                    src_mtime=src_state[case["file"]][2])
         elif fn == "copy_file":
             pass
         else:
@@ -570,7 +709,7 @@ def check_copy(case, src_spec, before, after, raised, calls, result, fails):
                     bad("directory-not-created", path=d)
 
 
-def check_mirror(case, pair, src_spec, before, after, raised, fails):
+def check_mirror(case, pair, src_spec, before, after, raised, fails, src_state, dst_os):
     import fs.mirror
 
     def bad(kind, **kw):
@@ -588,17 +727,19 @@ def check_mirror(case, pair, src_spec, before, after, raised, fails):
         sb = content("S", p, nd[2])
         got = after.get(p)
         b = before.get(p)
+        sm = src_state[p][2]                   # RAW reported source time
+        want_m = os_time(sm) if dst_os else sm
         keep_ok = (newer and b is not None and b[0] == "f" and len(b[1]) == len(sb)
-                   and b[2] is not None and b[2] >= BASE + nd[1])
+                   and b[2] is not None and b[2] >= sm)
         if keep_ok:
             kept.add(p)
             if got != b:
-                bad("newer-destination-file-not-kept", path=p, before=b, after=got)
+                bad("newer-destination-file-not-kept", path=p, before=b, after=got, src_mtime=sm)
             continue
         if got is None or got[0] != "f" or got[1] != sb:
-            bad("file-not-mirrored", path=p, before=b, after=got)
-        elif pt and got[2] != BASE + nd[1]:
-            bad("mtime-not-preserved", path=p, got=got[2], want=BASE + nd[1])
+            bad("file-not-mirrored", path=p, before=b, after=got, src_mtime=sm)
+        elif pt and got[2] != want_m:
+            bad("mtime-not-preserved", path=p, got=got[2], want=want_m)
     for d in dirs:
         if after.get(d, (None,))[0] != "d":
             bad("directory-not-mirrored", path=d, before=before.get(d), after=after.get(d))
@@ -665,6 +806,11 @@ def signature(case, fails):
         sig += " (same filesystem object)"
     if first in ("file-not-copied", "file-copied-against-condition", "return-value-vs-condition"):
         sig += " cond=" + case.get("cond", "always")
+    if first in ("file-not-copied", "file-copied-against-condition", "return-value-vs-condition", "file-not-mirrored",
+                 "newer-destination-file-not-kept"):
+        b, sm = f0.get("before"), f0.get("src_mtime")
+        if b is not None and b[0] == "f" and b[2] is not None and sm is not None and 0 < abs(b[2] - sm) < 1:
+            sig += " [times less than one second apart]"
     return sig
 
 
@@ -730,7 +876,10 @@ def explore(tier, seed):
     for i in range(n_pairs):
         rel = RELATIONS[i % 4]
         src = gen_src(rnd, rnd.randint(1, 14 if thorough else 10))
-        pairs.append((src, gen_dst(rnd, src, rel), rel))
+        dst = gen_dst(rnd, src, rel)
+        if i % 2 == 1:                  # time-resolution dimension: every other generated pair has sub-second times
+            src, dst = retime(rnd, src, dst)
+        pairs.append((src, dst, rel))
     for i, (src, dst, rel) in enumerate(pairs):
         hand = i < 5
         backends = BACKENDS if (hand or thorough and i % 3 == 0) else [BACKENDS[i % 4], rnd.choice(BACKENDS)]
@@ -796,6 +945,43 @@ def explore(tier, seed):
                         cases.append(dict(base, fn="copy_fs", preserve_time=pt, workers=0))
                         cases.append(dict(base, fn="copy_fs_if", cond=CONDITIONS[(k + 1) % 5], preserve_time=pt,
                                           workers=0))
+    # ---- time-resolution dimension: the systematic table of (source time, destination time) pairs x every
+    #      conditional copy function x all five conditions, mirror(copy_if_newer=True) and preserve_time.
+    #      Backends holding OS directories get the values an OS directory can store (os_fix).
+    mem_kinds, os_kinds = ["mem-mem", "same-mem", "sub-sub"], ["mem-os", "os-mem", "os-os", "same-os"]
+    for canon, kinds in ((False, mem_kinds), (True, os_kinds)):
+        trees, _skipped = time_trees(canon)
+        for ti, (src, dst, rows) in enumerate(trees):
+            future = any(nd[0] == "f" and mt(nd[1]) > FUTURE for nd in src.values())
+            for be in (kinds if thorough else [kinds[(ti + seed) % len(kinds)]]):
+                base = dict(backend=be, src=src, dst=dst, relation="overlapping", walker="none", time_table=True,
+                            time_rows=[list(r[:3]) for r in rows])
+                same = be.startswith("same-")
+                for pt in (False, True):
+                    for c in CONDITIONS:
+                        if not same:
+                            cases.append(dict(base, fn="copy_fs_if", cond=c, preserve_time=pt, workers=0))
+                        cases.append(dict(base, fn="copy_dir_if", src_path="/sub" if not same or thorough else "",
+                                          dst_path="/sub" if not same or thorough else "", cond=c, preserve_time=pt,
+                                          workers=2 if (be == "mem-mem" and c == "newer") else 0, src_spelling=0, dst_spelling=0))
+                    if not same and (pt or not future):
+                        # (a freshly written destination file is older than a source dated in the future: the
+                        #  second pass would legitimately copy again, so those run with preserve_time only)
+                        cases.append(dict(base, fn="mirror", copy_if_newer=True, preserve_time=pt, workers=0))
+                    if pt:
+                        if same:
+                            cases.append(dict(base, fn="copy_dir", src_path="", dst_path="", preserve_time=True, workers=0,
+                                              src_spelling=0, dst_spelling=0))
+                        else:
+                            cases.append(dict(base, fn="copy_fs", preserve_time=True, workers=0))
+                            cases.append(dict(base, fn="mirror", copy_if_newer=False, preserve_time=True, workers=0))
+                for fi, q in enumerate(sorted(p for p in src if src[p][0] == "f")):
+                    conds = CONDITIONS if thorough else ["newer", "older", CONDITIONS[(ti + fi) % 5]]
+                    for c in sorted(set(conds)):
+                        for pt in ([False, True] if thorough else [bool((ti + fi + len(c)) % 2)]):
+                            cases.append(dict(base, fn="copy_file_if", file=q, cond=c, preserve_time=pt))
+                    if same or thorough:
+                        cases.append(dict(base, fn="copy_file", file=q, preserve_time=True))
     # ---- source and destination are the same filesystem object
     n_same = 60 if thorough else 9
     same_pairs = [(hand_src, pairs[1][1], "overlapping"), (hand_src, {}, "empty")]
@@ -879,10 +1065,29 @@ def coverage_of(cases, failures, sigs):
         if c["fn"] == "mirror" and "_second_pass_calls" in c:
             h("second_mirror_mutating_calls(copy_if_newer=%s)" % c["copy_if_newer"],
               "0" if c["_second_pass_calls"] == 0 else ">0")
+        conditional = c["fn"].endswith("_if") or c["fn"] == "mirror" and c["copy_if_newer"]
         for p, nd in c["src"].items():
             if nd[0] == "f" and p in c["dst"] and c["dst"][p][0] == "f":
-                k2 = c["dst"][p][1]
-                h("time_relation(src vs dst)", "older" if nd[1] < k2 else "equal" if nd[1] == k2 else "newer")
+                t1, t2 = mt(nd[1]), mt(c["dst"][p][1])
+                h("time_relation(src vs dst)", "older" if t1 < t2 else "equal" if t1 == t2 else "newer")
+                if conditional:
+                    gap = abs(t1 - t2)
+                    cls = ("equal" if gap == 0 else "< 10 us" if gap < 1e-5 else "< 10 ms" if gap < 1e-2 else "< 1 s"
+                           if gap < 1 else ">= 1 s")
+                    if 0 < gap < 1:
+                        cls += ", same second" if int(t1 // 1) == int(t2 // 1) else ", across a second boundary"
+                    h("time resolution: |src - dst| of overlapping files in conditional copies / mirror(copy_if_newer)", cls)
+            if nd[0] == "f" and c.get("preserve_time"):
+                t1 = mt(nd[1])
+                h("time resolution: preserve_time source times", "fractional" if t1 != int(t1) else "whole second")
+                if t1 <= 0 or t1 > FUTURE:
+                    h("time resolution: preserve_time source times", "epoch 0" if t1 == 0 else "negative" if t1 < 0 else "future")
+        if c.get("time_table"):
+            h("time table: function", c["fn"] + (" " + c["cond"] if "cond" in c else ""))
+            h("time table: backend", c["backend"])
+            for r in c["time_rows"]:
+                h("time table: anchor", r[0])
+                h("time table: relation", "%s (delta %s)" % (r[2], r[1]))
         if c["src"] or c["dst"]:
             distinct.add(json.dumps(case_json(c), sort_keys=True))
     hist["failure_signatures"] = dict(sigs)
@@ -902,8 +1107,21 @@ def coverage_of(cases, failures, sigs):
              "{copy_fs, copy_fs_if x 5 conditions, copy_dir / copy_dir_if with random source directory and "
              "destination path (root, existing directory, new nested path), mirror copy_if_newer False/True, "
              "copy_file_if x 5 conditions per source file}; thorough: every walker and condition for every pair; "
+             "TIME RESOLUTION: every other generated pair has sub-second times (relations kept, differences of 0.25 s / "
+             "1 ms / 1 us inside one second or across a second boundary), plus a systematic table {anchors: recent, "
+             "epoch 0, epoch-crossing (0 vs negative), negative, beyond 2^32, year 3000} x {0.25 s, 1 ms, 1 us} x {newer, "
+             "older, equal; inside a second, across a boundary, one whole second} driven through copy_fs_if / "
+             "copy_dir_if / copy_file_if x 5 conditions, mirror(copy_if_newer=True), and preserve_time (copy_fs, "
+             "copy_dir, copy_file, mirror) on {mem-mem, same-mem, sub-sub} with the exact floats and on {mem-os, os-mem, "
+             "os-os, same-os} with the values an OS directory holds; the oracle is the documented condition on the RAW "
+             "details.modified values of the snapshots, preserved times must be the exact source float (MemoryFS) / "
+             "what os.utime stores for it (OS directory); "
              "complete destination state compared before/after; non-trivial = distinct cases with a non-empty tree",
-        samples=samples, histograms=hist, failing_cases=len(failures))
+        samples=samples, histograms=hist, failing_cases=len(failures),
+        time_table_cases=len([c for c in cases if c.get("time_table")]),
+        time_table_rows=len(time_pairs()), time_table_rows_an_os_directory_cannot_hold=time_trees(True)[1],
+        subsecond_generated_pairs=len(set(id(c["src"]) for c in cases if not c.get("time_table") and any(
+            nd[0] == "f" and not isinstance(nd[1], list) and nd[1] != int(nd[1]) for nd in c["src"].values()))))
 
 
 def run(report):
@@ -936,7 +1154,11 @@ def run(report):
     import h_treecopy
     cov.update(h_treecopy.run_tree_checks(report, random.Random(report.seed + 1900), report.tier))
     return report.finish(proof, cov, assumptions=[
-        "modification times are set explicitly (1_000_000_000 + k) through setinfo; directory times are not compared",
+        "modification times are set explicitly (1_000_000_000 + k, k integer or fractional, or an absolute epoch value) "
+        "through setinfo; directory times are not compared; times given to an OS directory are first mapped to a value "
+        "the filesystem of the temp directory holds exactly (fixed point of os.utime/os.stat), so 'equal' means equal "
+        "raw values on both sides; generated time differences are 0 or at least ~1 microsecond (the library compares "
+        "datetime objects, whose resolution is one microsecond)",
         "mirror(copy_if_newer=True) is checked against fs/mirror.py's documented rule (_compare): a destination file is "
         "kept only when it has the same size and is not older; a differing size always copies",
         "a second mirror(copy_if_newer=False) rewrites every file by design; 'changes nothing' is checked on the "
